@@ -88,7 +88,7 @@ static void check_vals(const bj::object& c) {
   }
   const bj::array& cells = S.at("cells").as_array();
   const bj::array& xval = c.at("val").as_array();
-  std::map<std::int64_t, int> eps_of_dim;
+  bool faces_ok = true;
   for (std::int64_t x = 0; x < N; ++x) {
     ++n_cells;
     const bj::object& sc = cells[x].as_object();
@@ -105,8 +105,8 @@ static void check_vals(const bj::object& c) {
       ++n_eval;
       if (got.at("val").as_array()[x] != xval[x]) dv.add("filtration", xval[x], got.at("val").as_array()[x]);
     }
-    {  // boundary: the geometric faces, each once; documented incidences; alternating along the enumeration with a
-       // sign that is the same for all cells of one dimension (so that the alternating sums compose to zero)
+    {  // boundary: the geometric faces, each once; compute_incidence_between_cells = the documented formula; the
+       // documented incidences alternate along the enumeration
       Dev dv{"boundary", cact};
       ++n_eval; ++n_bd_lists;
       std::vector<std::int64_t> g = i64s(got.at("bd").as_array()[x]), e = i64s(sc.at("bd")), ei = i64s(sc.at("inc")),
@@ -117,6 +117,7 @@ static void check_vals(const bj::object& c) {
       std::sort(es.begin(), es.end());
       if (gs != es) {
         dv.add("boundary as a multiset", sc.at("bd"), got.at("bd").as_array()[x]);
+        faces_ok = false;
       } else {
         std::map<std::int64_t, std::int64_t> spec_inc;
         for (std::size_t k = 0; k < e.size(); ++k) spec_inc[e[k]] = ei[k];
@@ -128,12 +129,6 @@ static void check_vals(const bj::object& c) {
           if (eps == 0) eps = s;
           else if (eps != s) { dv.add("incidences alternate along the enumeration", bj::array{sc.at("bd"), sc.at("inc")}, got.at("bd").as_array()[x]); break; }
         }
-        if (eps != 0) {
-          std::int64_t d = sc.at("dim").to_number<std::int64_t>();
-          auto f = eps_of_dim.find(d);
-          if (f == eps_of_dim.end()) eps_of_dim[d] = eps;
-          else if (f->second != eps) dv.add("sign of the first boundary element is the same for all cells of a dimension", f->second, eps);
-        }
       }
     }
     {  // coboundary: the geometric cofaces, each once; no order is documented
@@ -144,6 +139,21 @@ static void check_vals(const bj::object& c) {
       std::sort(g.begin(), g.end());
       std::sort(e.begin(), e.end());
       if (g != e) dv.add("coboundary as a multiset", sc.at("cbd"), got.at("cbd").as_array()[x]);
+    }
+  }
+  if (faces_ok) {  // the enumerated boundaries, with signs alternating along the enumeration, compose to zero
+    Dev dv{"boundary_of_boundary", act};
+    ++n_eval;
+    const bj::array& gbd = got.at("bd").as_array();
+    for (std::int64_t x = 0; x < N && dv.diffs.size() < 3; ++x) {
+      std::map<std::int64_t, int> acc;
+      std::vector<std::int64_t> b = i64s(gbd[x]);
+      for (std::size_t k = 0; k < b.size(); ++k) {
+        std::vector<std::int64_t> bb = i64s(gbd[b[k]]);
+        for (std::size_t l = 0; l < bb.size(); ++l) acc[bb[l]] += (k % 2 == 0 ? 1 : -1) * (l % 2 == 0 ? 1 : -1);
+      }
+      for (auto& pr : acc)
+        if (pr.second != 0) { dv.add("coefficient of cell " + std::to_string(pr.first) + " in dd(" + std::to_string(x) + ")", 0, pr.second); break; }
     }
   }
   {
